@@ -251,7 +251,64 @@ def channel_cases(ctx):
     return allc
 
 
+SENDER_MSGS = (
+    [("fe", op, "valid", 0) for op in ("set_vring_kick", "set_vring_call", "set_vring_err", "set_mem_table", "set_config", "set_vring_addr",
+                                        "set_vring_num", "set_features", "set_inflight_fd", "add_mem_region", "set_backend_request_fd", "set_log_fd")]
+    + [("fe", "set_mem_table", "n32", 0), ("fe", "set_config", "max", 0)]
+    + [("gpu", "update_scanout", "valid", n) for n in (0, 100, 50000)]
+    + [("gpu", op, "valid", 0) for op in ("set_dmabuf_scanout", "set_dmabuf_scanout2", "set_scanout", "cursor_update", "cursor_pos")]
+    + [("be", op, "valid", 0) for op in ("shared_object_add", "shared_object_remove", "shared_object_lookup", "shmem_map", "shmem_unmap")]
+    + [("srv", str(c), "valid", 0) for c in (1, 11, 15, 17, 24, 31, 36, 41, 42, 44)]
+    + [("srv", str(c), "nr", 0) for c in (10, 18, 25)])
+
+
+def sender_run(ctx):
+    """C08, sender clause: Sender.tla model-checked per message; every partial-write script replayed on the real endpoints."""
+    import concurrent.futures
+    msgs = list(SENDER_MSGS)
+    if ctx.tier == "thorough":
+        msgs.append(("gpu", "update_scanout", "valid", 300000))
+    if ctx.replay is not None:
+        cases = [c for c in ctx.replay["cases"] if c is not None]
+    else:
+        probe = [dict(ep=e, op=o, cls=c, dlen=d, script=[], eintr=False) for e, o, c, d in msgs]
+        ptr = ctx.harness("sender", probe, tag="_probe")
+        tmpl = open(os.path.join(ROOT, "spec", "mc", "MC_Sender.cfg")).read()
+        os.makedirs(os.path.join(ctx.dir, "cfg"), exist_ok=True)
+        jobs = []
+        for line in open(ptr):
+            e = json.loads(line)
+            L, nf = e["len"], e["ref_nfds"]
+            cuts, b = {1, L - 1}, 0
+            for n in e["iovs"][:-1]:
+                b += n
+                cuts |= {b - 1, b, b + 1}
+            cuts = sorted(x for x in cuts if 0 < x < L)
+            name = f'{e["ep"]}/{e["op"]}/{e["cls"]}/{e.get("dlen", 0)}'
+            cfg = (tmpl.replace("L = 20", f"L = {L}").replace("NF = 1", f"NF = {nf}").replace("{1, 11, 12, 13, 19}", "{" + ", ".join(map(str, cuts)) + "}")
+                   .replace('"fe/set_vring_kick"', json.dumps(name)).replace('"quick"', f'"{ctx.tier}"'))
+            pth = os.path.join(ctx.dir, "cfg", "MC_Sender_" + name.replace("/", "_") + ".cfg")
+            open(pth, "w").write(cfg)
+            jobs.append((pth, e))
+        cases = []
+        def run(j):
+            return ctx.tlc_mc_path("MC_Sender", j[0], workers=1), j[1]
+        with concurrent.futures.ThreadPoolExecutor(max_workers=8) as ex:
+            for cs, e in ex.map(run, jobs):
+                for c in cs:
+                    cases.append(dict(ep=e["ep"], op=e["op"], cls=e["cls"], dlen=e["dlen"], script=c["script"], eintr=c["eintr"]))
+    tr = ctx.harness("sender", cases, shards=12)
+    viol = ctx.tlc_tv("TV_Sender", tr, "sender")
+    ctx.count_distinct(tr, lambda e: (e["ep"], e["op"], e["cls"], tuple(e["script"]), e["eintr"]), lambda e: e.get("ev") == "send" and len(e["attempts"]) > 1)
+    ctx.sample(tr, 2, skip=9)
+    return viol
+
+
 def run_C08(ctx):
+    if ctx.replay is not None and ctx.replay["engine"] == "sender":
+        viol = sender_run(ctx)
+        return ctx.finish("fault_enumeration", "replay of sender-side partial-write scripts", ASSUME_COMMON, viol)
+    sviol = sender_run(ctx) if ctx.replay is None else []
     stim = channel_cases(ctx)
     cases = []
     for st in stim:
@@ -277,12 +334,21 @@ def run_C08(ctx):
     viol += ctx.tlc_tv("TV_BackendServer", tr, "server")
     ctx.count_distinct(tr, lambda e: (e["c"], tuple(e["seg"]), e["cut"]), lambda e: e.get("seg") or e.get("cut", -1) >= 0)
     ctx.sample(tr, 3, skip=3)
+    viol += sviol
     return ctx.finish("fault_enumeration",
-        "Channel.tla is model-checked per message length (all segmentations / cut points of the state graph); stimuli = for every served "
+        "Receivers: Channel.tla is model-checked per message length (all segmentations / cut points of the state graph); stimuli = for every served "
         "request type (deterministic body): every 2-split, 3-splits (all for messages <= 52 bytes, else on a 4-byte grid; all in thorough), "
         "byte-by-byte delivery, and every cut offset 0..len-1 followed by EOF; each segment is really delivered separately (the peer waits "
-        "until the receiver drained the previous one); distinct = (request code, split points, cut offset)",
-        ASSUME_COMMON + ["unix stream sockets do not merge a segment the receiver has not been offered yet (the peer waits for FIONREAD==0 before writing the next segment)"],
+        "until the receiver drained the previous one). Senders: Sender.tla (send loop over a socket that accepts any part of a write or "
+        "refuses it) is model-checked per message; for every message the four endpoint kinds send (frontend requests, request-server replies "
+        "and acks, backend-initiated requests, GPU requests incl. 50 kB payloads) every script of parts given by 0..2 (3 thorough) cut points "
+        "among {1, iovec boundaries -1/0/+1, len-1}, with a refused attempt (EAGAIN / EINTR) before any part or twice before the first, and "
+        "byte-wise acceptance, is forced on the real endpoint by an interposed sendmsg(); the peer reads with the same granularity and TLC "
+        "compares bytes and the offset/count of arriving descriptors with the model; distinct = (request code, split points, cut offset) and "
+        "(endpoint, operation, script)",
+        ASSUME_COMMON + ["unix stream sockets do not merge a segment the receiver has not been offered yet (the peer waits for FIONREAD==0 before writing the next segment)",
+                         "partial writes are produced by an interposed sendmsg() that passes only the scripted number of bytes (with the caller's ancillary data) "
+                         "to the kernel, or fails with EAGAIN/EINTR without calling it -- the behaviour of a non-blocking socket with a small send buffer, made reproducible"],
         viol)
 
 
@@ -290,13 +356,13 @@ def run_C08(ctx):
 # Backend-initiated requests: C18 (+ proxy/request-server parts of C06, C07, C01, C08)
 def bereq_run(ctx, hostile=False, functional=True):
     depth = 4 if ctx.tier == "quick" else 5
-    cases = ctx.tlc_mc("MC_BackendReq", "MC_BackendReq_" + ctx.tier)
+    # the thorough model has millions of histories: all are model-checked, a seeded stride of them is replayed
+    cases = ctx.tlc_mc("MC_BackendReq", "MC_BackendReq_" + ctx.tier, max_cases=400000)
     hc = list(ctx.hcases)
     sess = []
     if functional:
         full = [c for c in cases if len(c["steps"]) == depth - 0]
-        if ctx.tier == "quick":
-            full = full[::(max(1, len(full) // 6000))]
+        full = full[::(max(1, len(full) // (6000 if ctx.tier == "quick" else 100000)))]
         for i, c in enumerate(full):
             steps = c["steps"]
             sess.append(dict(mode="pair", adapter="mutex" if i % 3 else "direct", steps=steps))
@@ -365,16 +431,17 @@ def run_C01(ctx):
     if ctx.replay is not None:
         eng = ctx.replay["engine"]
         viol = {"server": server_run, "client": lambda c: client_run(c, False), "bereq": bereq_run,
-                "gpu": lambda c: gpu_run(c, False)}[eng](ctx)
+                "gpu": lambda c: gpu_run(c, False), "sender": sender_run}[eng](ctx)
     else:
-        viol = server_run(ctx) + client_run(ctx, want_mutations=False) + bereq_run(ctx) + gpu_run(ctx, hostile=False)
+        viol = server_run(ctx) + client_run(ctx, want_mutations=False) + bereq_run(ctx) + gpu_run(ctx, hostile=False) + sender_run(ctx)
     return ctx.finish("exploration",
         "WireFormat.tla (transcribed from the vhost-user / vhost-user-gpu documents) is the byte-level oracle, evaluated by TLC on recorded "
         "traces: (a) every frontend operation in every negotiation state (MC_Client transitions): bytes, flags, size, descriptor count / "
         "identity / attachment to the first byte as captured by an independent raw peer, and values decoded from the peer's conformant "
         "replies; (b) every request of MC_BackendServer's transitions encoded by the independent packer: arguments/files seen by the handler "
         "and reply/ack bytes for handler-chosen values (64-bit lattice + random); (c) backend-initiated requests and acks in three bindings; "
-        "(d) all 12 GPU requests incl. payload lengths 0..70000 (300000 thorough) and both reply directions; distinct = (engine, operation, "
+        "(d) all 12 GPU requests incl. payload lengths 0..70000 (300000 thorough) and both reply directions; (e) descriptors as ancillary data "
+        "of the first byte under partial writes (the sender stage of C08); distinct = (engine, operation, "
         "class, outcome)",
         ASSUME_COMMON + ["payload of the SET_LOG_BASE reply and tail padding of the inflight message are not fixed by the document and not judged",
                          "the hosts supported are little-endian; 'native-endian' is checked as little-endian"],
@@ -440,15 +507,129 @@ def hostile_server_run(ctx, fdpos=False):
     return viol
 
 
+# ---- daemon part of C05: well-typed control messages with adversarial values against a running VhostUserDaemon
+M64 = (1 << 64) - 1
+U64V = {"zero": 0, "one": 1, "page-1": 0xfff, "page": 0x1000, "2^31": 1 << 31, "2^32-1": (1 << 32) - 1, "2^32": 1 << 32,
+        "2^63-1": (1 << 63) - 1, "2^63": 1 << 63, "top-page": (1 << 64) - 0x1000, "max": M64}
+IDXV = {"first": 0, "last": 1, "nq": 2, "127": 127, "255": 255, "max32": 0xffffffff}
+NUMV = {"zero": 0, "one": 1, "three": 3, "max": 256, "max+1": 257, "65535": 65535, "65536": 65536, "max32": 0xffffffff}
+U16V = {"zero": 0, "one": 1, "65535": 65535}
+
+
+def from_limbs4(l4):
+    return l4[0] | l4[1] << 16 | l4[2] << 32 | l4[3] << 48
+
+
+def hostile_letter(a, pool, rnd):
+    """One letter of DaemonHostile.tla as a raw message (code, body, descriptors)."""
+    import struct
+    k, f = a["k"], a["f"]
+    ua0, size0 = from_limbs4(pool[0]["ua"]), from_limbs4(pool[0]["size"])
+    def u64(c):
+        return rnd.getrandbits(64) if c == "random" else U64V[c]
+    def addr(c, align):
+        return {"in": ua0 + 0x100, "unaligned": ua0 + 0x101, "last-bytes": ua0 + size0 - align, "end": ua0 + size0, "before": ua0 - 16,
+                "zero": 0, "2^63": 1 << 63, "top-16": (1 << 64) - 16, "max": M64}[c] & M64
+    FILE = 0x4000          # size of every file handed over with a hostile letter
+    why = []
+    def reg(r):
+        g = {"zero": 0, "page": 0x1000, "2^63": 1 << 63, "top-2pages": (1 << 64) - 0x2000, "top-page": (1 << 64) - 0x1000}
+        sz = {"zero": 0, "page": 0x1000, "beyond-file": 0x100000, "2^63": 1 << 63, "max-page": (1 << 64) - 0x1000}
+        u = dict(g, mid=0x7000_0000_0000)
+        o = {"zero": 0, "page": 0x1000, "2^63": 1 << 63, "top-page": (1 << 64) - 0x1000}
+        if o[r["off"]] + sz[r["size"]] > FILE:
+            why.append("window-extends-beyond-the-end-of-the-file")
+        return struct.pack("<QQQQ", g[r["gpa"]], sz[r["size"]], u[r["ua"]], o[r["off"]])
+    d = dict(op="raw", hk=k, has_reply=False, nfds=0, why="")
+    if k in ("set_vring_num", "set_vring_base", "set_vring_enable"):
+        d.update(c={"set_vring_num": 8, "set_vring_base": 10, "set_vring_enable": 18}[k], body=struct.pack("<II", IDXV[f["idx"]], NUMV[f["v"]]).hex())
+    elif k == "get_vring_base":
+        d.update(c=11, body=struct.pack("<II", IDXV[f["idx"]], 0).hex(), has_reply=True)
+    elif k == "set_vring_addr":
+        fl = {"none": 0, "log": 1, "undefined": 0x80000002}[f["flags"]]
+        d.update(c=9, body=struct.pack("<IIQQQQ", IDXV[f["idx"]], fl, addr(f["desc"], 16), addr(f["used"], 4), addr(f["avail"], 2), 0).hex())
+    elif k in ("set_vring_kick", "set_vring_call", "set_vring_err"):
+        v = IDXV[f["idx"]] | (0x100 if f["nofd"] else 0)
+        d.update(c={"set_vring_kick": 12, "set_vring_call": 13, "set_vring_err": 14}[k], body=struct.pack("<Q", v).hex(), nfds=1 if f["fd"] else 0, fdkind="eventfd")
+    elif k in ("set_features", "set_protocol_features"):
+        d.update(c=2 if k == "set_features" else 16, body=struct.pack("<Q", u64(f["v"])).hex())
+    elif k == "set_mem_table":
+        n = f["n"]
+        body = struct.pack("<II", n, 0) + reg(f["r"])
+        if n == 2:
+            body += struct.pack("<QQQQ", 0x4000_0000, 0x1000, 0x6000_0000_0000, 0)
+        d.update(c=5, body=body.hex(), nfds=n, fdsize=0x4000)
+    elif k in ("add_mem_reg", "rem_mem_reg"):
+        d.update(c=37 if k == "add_mem_reg" else 38, body=(struct.pack("<Q", 0) + reg(f["r"])).hex(), nfds=1 if k == "add_mem_reg" else 0, fdsize=0x4000)
+    elif k == "set_log_base":
+        sz_, of_ = u64(f["size"]), u64(f["off"])
+        if sz_ + of_ > FILE:
+            why.append("window-extends-beyond-the-end-of-the-file")
+        d.update(c=6, body=struct.pack("<QQ", sz_, of_).hex(), nfds=1, fdsize=0x4000, has_reply=True)
+    elif k in ("get_config", "set_config"):
+        off = {"zero": 0, "in": 0x100, "end-1": 0xfff, "end": 0x1000, "max32": 0xffffffff}[f["off"]]
+        win = 0x1000 - off if off < 0x1000 else 0x1000
+        size = {"zero": 0, "one": 1, "window": win, "window+1": win + 1, "max32": 0xffffffff}[f["size"]]
+        d.update(c=24 if k == "get_config" else 25, body=(struct.pack("<III", off, size, 0) + bytes(min(size, 0x1001))).hex(), has_reply=(k == "get_config"))
+    elif k in ("get_inflight_fd", "set_inflight_fd"):
+        s3 = {"zero": 0, "page": 0x1000, "max": M64}
+        d.update(c=31 if k == "get_inflight_fd" else 32, body=struct.pack("<QQHHI", s3[f["size"]], s3[f["off"]], U16V[f["nq"]], U16V[f["qs"]], 0).hex(),
+                 has_reply=(k == "get_inflight_fd"), nfds=0 if k == "get_inflight_fd" else 1, fdsize=0x4000)
+    elif k == "kick":
+        return dict(op="kick", q=0, which="cur", hk="kick")
+    elif k == "use_ring":
+        return dict(op="use_ring", q=0, idx=0, len=16, oused=limbs(0x400), hk="use_ring")
+    d["why"] = why[0] if why else ""
+    return d
+
+
+def daemon_hostile_run(ctx):
+    stim = ctx.tlc_mc("MC_DaemonHostile", "MC_DaemonHostile_" + ctx.tier, workers=1)
+    rnd = random.Random(ctx.seed)
+    neg = dict(op="negotiate", feats=[30], pf=[0, 1, 3, 5, 9, 13, 15, 18, 21])
+    cases = []
+    reps = 1 if ctx.tier == "quick" else 3
+    for i, c in enumerate(stim):
+        for r_ in range(reps):
+            pool, G = mem_pool(rnd)
+            pre = {"fresh": [], "negotiated": [neg], "memory": [neg, dict(op="set_mem_table", rids=[0], badfd=False)]}
+            pre["ring"] = pre["memory"] + [dict(op="set_vring_num", q=0, n=limbs(256)),
+                                           dict(op="set_vring_addr", q=0, rid=0, odesc=limbs(0x100), oavail=limbs(0x300), oused=limbs(0x400), used_idx=0),
+                                           dict(op="set_vring_base", q=0, n=limbs(0)), dict(op="set_vring_kick", q=0, fd="new"),
+                                           dict(op="set_vring_call", q=0, fd="new"), dict(op="set_vring_enable", q=0, en=True)]
+            steps = pre[c["level"]] + [hostile_letter(a, pool, rnd) for a in c["steps"]]
+            if c["level"] in ("memory", "ring"):
+                # whatever was accepted is then exercised by the worker
+                steps += [dict(op="kick", q=0, which="cur", hk="kick"), dict(op="use_ring", q=0, idx=0, len=16, oused=limbs(0x400), hk="use_ring"),
+                          dict(op="kick", q=0, which="cur", hk="kick")]
+            cases.append(dict(nq=2, masks=[3], maxq=256, pool=pool, level=c["level"], vring="rwlock" if i % 2 else "mutex",
+                              adapter=("arc", "mutex", "rwlock")[i % 3], steps=steps))
+    cases = replay_or(ctx, "daemon", cases)
+    tr = ctx.harness("daemon", cases, shards=12, crash_is_data=True)
+    viol = ctx.tlc_tv("TV_DaemonHostile", tr, "daemon")
+    ctx.count_distinct(tr, lambda e: (e.get("letter", {}).get("hk"), e.get("letter", {}).get("c"), e.get("status")),
+                       lambda e: e.get("ev") == "step" and "hk" in e.get("letter", {}))
+    ctx.sample(tr, 2, skip=11)
+    return viol
+
+
 def run_C05(ctx):
-    viol = hostile_server_run(ctx)
+    if ctx.replay is not None and ctx.replay["engine"] == "daemon":
+        viol = daemon_hostile_run(ctx)
+    else:
+        viol = hostile_server_run(ctx) + (daemon_hostile_run(ctx) if ctx.replay is None else [])
     return ctx.finish("exploration",
         "MC_Hostile enumerates, per request code (0..46, 1000) from a fresh and from a fully negotiated connection: the valid message, 10 header "
         "mutations (REPLY, version 0/2/3, reserved bit, size short/long/zero/4096/>4096), every single violated body rule, and 0..40 attached "
         "descriptors (8 classes quick) x NEED_REPLY x handler outcome; each letter is instantiated with several seeds (boundary + random 64-bit "
         "values) and written by a raw peer to the real BackendReqHandler built with overflow checks and debug assertions; TLC evaluates on "
         "the recorded handler calls the reference validity predicates (Validators.tla), the prescribed descriptor count and rejection of "
-        "the listed rule violations; distinct = (code, variant, descriptors, result, dispatched)",
+        "the listed rule violations. Daemon part: DaemonHostile.tla enumerates every well-typed control message x value classes over the "
+        "64/32/16-bit boundary lattice (ring indexes, sizes, ring addresses relative to the mapped region and at the ends of the address space, "
+        "region geometries incl. wrapping and beyond-file sizes, log windows, config windows, inflight geometries, kick/call/err payloads) from four "
+        "set-up levels (fresh, negotiated, memory mapped, ring started), plus all ordered pairs over a reduced alphabet; each is sent to a real "
+        "VhostUserDaemon, followed by a kick and a used-ring update; TLC requires an answer or an ended connection for every message and "
+        "no panic in any thread; distinct = (code, variant, descriptors, result, dispatched) and (message kind, result)",
         ASSUME_COMMON + ["reads outside the received message that do not end in a panic/abort are invisible to this technique (not claimed)",
                          "header-level oddities (REPLY flag, wrong fixed size) on requests the statement's rule list does not mention are judged only for panics, "
                          "invalid handler arguments and descriptor counts"],
@@ -811,8 +992,12 @@ def run_C14(ctx):
             body.append(ring_letter(a, cur_rid))
             if a["op"] == "set_mem_table":
                 cur_rid = a["n"]
-        cases.append(dict(nq=2, masks=[3], maxq=256, pool=pool, vring="rwlock" if i % 2 else "mutex", adapter=("arc", "mutex", "rwlock")[i % 3],
-                          steps=pre + body))
+        case = dict(nq=2, masks=[3], maxq=256, pool=pool, vring="rwlock" if i % 2 else "mutex", adapter=("arc", "mutex", "rwlock")[i % 3],
+                    steps=pre + body)
+        if i % 4 == 3 or any(a["op"] == "brfd" for a in c["steps"]) and i % 2:
+            # a device that does not list REPLY_ACK itself: the library offers (and negotiates) it on the device's behalf
+            case["pf"] = [b for b in range(22) if b not in (3, 8, 17)]
+        cases.append(case)
     cases = replay_or(ctx, "daemon", cases)
     tr = ctx.harness("daemon", cases, shards=12)
     viol = ctx.tlc_tv("TV_RingCfg", tr, "daemon")
